@@ -205,13 +205,13 @@ def h_roundtrip(n):
 
 
 def configs(tier, seed):
-    nmax = 4 if tier == 'quick' else 8
+    nmax = 4 if tier == 'quick' else 12
     cfgs = []
     for k in range(0, 3 * nmax + 7):
         if tier == 'quick' and k > 3 * nmax + 3 and k % 3 == 0:
             continue
         cfgs.append(Config('parse k=%d columns' % k, h_parse(k), 1500))
-    for n in ([0, 1, 3, 6] if tier == 'quick' else [0, 1, 2, 3, 6, 12]):
+    for n in ([0, 1, 3, 6] if tier == 'quick' else [0, 1, 2, 3, 4, 6, 9, 12]):
         cfgs.append(Config('round trips n=%d' % n, h_roundtrip(n), 600))
     return cfgs
 
